@@ -24,12 +24,27 @@ THEOREMS = ["SleapVerif.C05." + t for t in [
     "insideOpen_false_of_outside", "kept_false_of_outside", "paf_zero_filtered",
     "paf_kept_partial", "paf_border_strip_counterexample",
     "paf_additive", "paf_single", "paf_empty", "paf_layout", "paf_shape",
+    "paf_weight_antitone_capstone", "paf_output_on_segment", "paf_output_additive",
 ]]
 
-TOL = 2e-5          # values: float32 implementation vs float64 model; observed noise ≤ ~1.3e-6 per animal (evidence max_abs_diff)
-TOL_DIST = 2e-5     # distance_to_edge: |Δ| ≤ TOL_DIST · max(1, D)
-TOL_ON = 1e-4       # oracle: weight on the segment must be ≥ 1 − TOL_ON
-TOL_OR = 2e-5       # oracle: direction / range / monotonicity / Gaussian-of-true-distance slack
+EPS32 = 2.0 ** -23
+TOL = 2e-5          # floor of the value tolerance (float32 implementation vs float64 model); see case_tol
+K_COORD = 2.5       # value tolerance grows with the coordinate magnitude: K_COORD·eps32·M/sqrt(sigma)
+TOL_DIST = 2e-5     # distance_to_edge: |Δ| ≤ TOL_DIST·max(1, D) + 8·eps32·M·max(1, sqrt(D))
+TOL_ON = 1e-4       # oracle: weight on the segment must be ≥ 1 − max(TOL_ON, case_tol)
+
+
+def coord_mag(case):
+    vals = [abs(v) for a in case.get("animals", []) for p in a for v in p if v is not None]
+    return max([case["H"], case["W"]] + vals)
+
+
+def case_tol(case):
+    """Value tolerance for one animal's field.  The weight is exp(-D²/2σ²) with D a *squared* distance
+    computed in float32 from coordinates of magnitude M: δD ≈ 2·sqrt(D)·eps32·M·k, and the law's slope
+    gives |δw| ≲ 1.3·k·eps32·M/sqrt(σ).  Floor 2e-5 (= the former fixed tolerance, reached at M ≈ 47 for
+    σ = .5); observed noise/tolerance is recorded in the evidence (max_diff_over_tol)."""
+    return max(TOL, K_COORD * EPS32 * coord_mag(case) / math.sqrt(case["sigma"]))
 SIG_SHORT = "edge_shorter_than_one_pixel"
 SIG_BOX = "in_image_animal_outside_open_filter_box"
 
@@ -107,11 +122,46 @@ def gen_edges(rng, n_nodes):
     return es
 
 
+def gen_sigma(rng, lo=0.3, hi=20.0):
+    if rng.random() < 0.65:
+        return rng.choice([0.5, 1.0, 1.5, 2.5, 5.0])
+    return float(math.exp(rng.uniform(math.log(lo), math.log(hi))))
+
+
+def gen_large_case(rng, kind):
+    """Real-data regime: frames of 512–4096 px, stride 16–64 (grid ≤ 64 cells a side), long edges,
+    animals anywhere incl. the far corner; the float32 claim of the trusted base is measured here."""
+    H, W = rng.randrange(512, 4097), rng.randrange(512, 4097)
+    stride = next(st for st in (16, 32, 64) if max(H, W) / st <= 64)
+    if rng.random() < 0.5:
+        H, W = H // stride * stride, W // stride * stride
+    n_nodes = rng.choice([2, 3])
+    animals = []
+    for _ in range(rng.choice([1, 1, 2])):
+        where = rng.choice(["anywhere", "far_corner", "partly"])
+        if where == "far_corner":
+            cx, cy = W - rng.randrange(1, 200), H - rng.randrange(1, 200)
+        elif where == "partly":
+            cx, cy = rng.choice([-50, W + 50, W // 2]), rng.randrange(0, H)
+        else:
+            cx, cy = rng.randrange(0, W), rng.randrange(0, H)
+        span = rng.choice([3, 40, 300, 1500])
+        a = [[cx + lat(rng, -span, span), cy + lat(rng, -span, span)] for _ in range(n_nodes)]
+        if rng.random() < 0.3:     # a node exactly on a grid point: on-segment cells exist
+            a[0] = [float(min(W - 1, max(0, round(a[0][0] / stride))) * stride), float(min(H - 1, max(0, round(a[0][1] / stride))) * stride)]
+        if rng.random() < 0.1:
+            a[rng.randrange(n_nodes)] = [None, None]
+        animals.append(a)
+    return {"kind": kind, "H": H, "W": W, "stride": stride, "sigma": gen_sigma(rng, 0.5, 40.0), "n_nodes": n_nodes,
+            "edges": [[0, 1]] if n_nodes == 2 else rng.choice([[[0, 1], [1, 2]], [[2, 0]], [[0, 1]]]),
+            "animals": animals, "large": True}
+
+
 def gen_case(rng, kind=None, pin=None, modes=None):
     pin = pin or {}
-    kind = kind or rng.choice(["pafs", "pafs", "pafs_noflat", "dp", "mpafs", "mkpafs"])
+    kind = kind or rng.choice(KINDS)
     stride = pin.get("stride") or rng.choice([1, 2, 2, 4, 4, 8])
-    sigma = pin.get("sigma") or rng.choice([0.5, 1.0, 1.5, 2.5, 5.0])
+    sigma = pin.get("sigma") or gen_sigma(rng)
     if "H" in pin:
         H, W = pin["H"], pin["W"]
     elif rng.random() < 0.5:
@@ -126,22 +176,30 @@ def gen_case(rng, kind=None, pin=None, modes=None):
             "edges": gen_edges(rng, n_nodes), "animals": animals}
     if kind in ("pafs", "pafs_noflat") and rng.random() < 0.15:
         case["extra_sample"] = [gen_animal(rng, H, W, stride, n_nodes, "inside") for _ in range(n_inst)]
+    if kind in OUT_KINDS and case["edges"] and rng.random() < 0.5:
+        case["float_edge_inds"] = True       # production call style: torch.Tensor(list) -> float32 indices
     return case
+
+
+KINDS = ["pafs", "pafs", "pafs_noflat", "dp", "dp_noflat", "mpafs", "mkpafs"]
+OUT_KINDS = ("pafs", "pafs_noflat", "dp", "dp_noflat")      # generate_pafs-type: the property's observation points
 
 
 def gen_dist_case(rng):
     h, w = rng.randrange(1, 6), rng.randrange(1, 6)
-    pts = [[lat(rng, -4, 40), lat(rng, -4, 40)] for _ in range(h * w)]
+    big = rng.random() < 0.3
+    hi = 4096 if big else 40
+    pts = [[lat(rng, -4, hi), lat(rng, -4, hi)] for _ in range(h * w)]
     es = []
     for _ in range(rng.randrange(1, 5)):
-        s = [lat(rng, -4, 40), lat(rng, -4, 40)]
+        s = [lat(rng, -4, hi), lat(rng, -4, hi)]
         m = rng.random()
         if m < 0.2:
             d = [rng.choice([-1, 1]) * rng.choice([1 / 16, 1 / 4, 1 / 2, 15 / 16]), rng.choice([0, 1 / 8, -1 / 2])]
         elif m < 0.3:
             d = [0.0, 0.0]
         else:
-            d = [lat(rng, -20, 20), lat(rng, -20, 20)]
+            d = [lat(rng, -hi // 2, hi // 2), lat(rng, -hi // 2, hi // 2)]
         es.append(s + [s[0] + d[0], s[1] + d[1]])
     return {"kind": "dist", "h": h, "w": w, "pts": pts, "es": es}
 
@@ -160,9 +218,15 @@ def nan_arr(pts, shape):
     return np.array(flat, dtype=np.float64).reshape(shape)
 
 
-def run_impl(case, animals=None):
-    """Returns ('ok', ndarray) | ('raise', cls, msg).  For pafs-type cases the result is always
-    flattened to (2E, h, w) after checking the un-flattened layout."""
+def same(t1, t2):
+    import torch
+    return t1.shape == t2.shape and bool(((t1 == t2) | (torch.isnan(t1) & torch.isnan(t2))).all())
+
+
+def run_impl_raw(case, animals=None):
+    """Calls the real code.  Returns ('ok', torch tensor as returned, canonical ndarray copy) |
+    ('raise', cls, msg).  For generate_pafs-type cases the canonical array is (2E, h, w) (the
+    un-flattened layout is checked first)."""
     import torch
     from sleap_nn.data import edge_maps as em
     from sleap_nn.data.utils import make_grid_vectors
@@ -173,19 +237,24 @@ def run_impl(case, animals=None):
         es = np.array(case["es"], dtype=np.float64).reshape(-1, 4)
         r = call(em.distance_to_edge, P, torch.tensor(es[:, :2], dtype=torch.float32),
                  torch.tensor(es[:, 2:], dtype=torch.float32))
-        return r if r[0] == "raise" else ("ok", r[1].numpy().reshape(-1, es.shape[0]))
+        return r if r[0] == "raise" else ("ok", r[1], r[1].numpy().reshape(-1, es.shape[0]).copy())
     H, W, s, sg = case["H"], case["W"], case["stride"], case["sigma"]
     animals = case["animals"] if animals is None else animals
     N, E = case["n_nodes"], len(case["edges"])
     inst = torch.tensor(nan_arr(animals, (len(animals), N, 2)), dtype=torch.float32)
-    edge_inds = torch.tensor(np.array(case["edges"], dtype=np.int64).reshape(E, 2))
+    if case.get("float_edge_inds") and E:
+        edge_inds = torch.Tensor([list(e) for e in case["edges"]])        # as custom_datasets.py / streaming_datasets.py do
+    else:
+        edge_inds = torch.tensor(np.array(case["edges"], dtype=np.int64).reshape(E, 2))
     before = inst.clone()
+    raw = None
     if kind in ("mkpafs", "mpafs"):
         xv, yv = make_grid_vectors(H, W, s)
         srcs, dsts = em.get_edge_points(inst, edge_inds)
         if kind == "mpafs":
             r = call(em.make_multi_pafs, xv, yv, srcs, dsts, sg)
             if r[0] == "ok":
+                raw = r[1]
                 r = ("ok", r[1].reshape(2 * E, len(yv), len(xv)))
         else:   # one make_pafs call per animal, stacked: (I, E, 2, h, w)
             outs = []
@@ -193,30 +262,37 @@ def run_impl(case, animals=None):
                 r = call(em.make_pafs, xv, yv, srcs[a], dsts[a], sg)
                 if r[0] == "raise":
                     return r
-                outs.append(r[1].numpy())
-            return ("ok", np.array(outs).reshape(len(animals), E, 2, len(yv), len(xv)))
+                outs.append(r[1].numpy().copy())
+            arr = np.array(outs).reshape(len(animals), E, 2, len(yv), len(xv))
+            return ("ok", torch.tensor(arr), arr)
     else:
         batch = [inst] + ([torch.tensor(nan_arr(case["extra_sample"], (len(animals), N, 2)), dtype=torch.float32)]
                           if case.get("extra_sample") and len(case["extra_sample"]) == len(animals) else [])
         instances = torch.stack(batch)
-        if kind == "dp":
+        flat = kind in ("pafs", "dp")
+        kw = {} if case.get("defaults") else {"sigma": sg, "output_stride": s}
+        if kind in ("dp", "dp_noflat"):
             ex = {"image": torch.zeros((1, 1, H, W)), "instances": instances[:1]}
-            dp = em.PartAffinityFieldsGenerator([ex], sigma=sg, output_stride=s, edge_inds=edge_inds,
-                                                flatten_channels=True)
+            dp = em.PartAffinityFieldsGenerator([ex], **kw, edge_inds=edge_inds, flatten_channels=flat)
             r = call(lambda: list(dp)[0]["part_affinity_fields"])
         else:
-            flat = kind == "pafs"
-            r = call(em.generate_pafs, instances, (H, W), sigma=sg, output_stride=s, edge_inds=edge_inds,
-                     flatten_channels=flat)
-            if r[0] == "ok" and not flat:
-                if r[1].ndim != 4 or r[1].shape[:2] != (E, 2):
+            r = call(em.generate_pafs, instances, (H, W), **kw, edge_inds=edge_inds, flatten_channels=flat)
+        if r[0] == "ok":
+            raw = r[1]
+            if not flat:
+                if r[1].ndim != 4 or tuple(r[1].shape[:2]) != (E, 2):
                     return ("raise", "Layout", f"unflattened shape {tuple(r[1].shape)}")
                 r = ("ok", r[1].reshape(2 * E, r[1].shape[2], r[1].shape[3]))
     if r[0] == "raise":
         return r
-    if not torch.equal(torch.nan_to_num(before, nan=-12345.0), torch.nan_to_num(inst, nan=-12345.0)):
+    if not same(before, inst):
         return ("raise", "InputMutated", "input tensor was modified")
-    return ("ok", r[1].detach().numpy())
+    return ("ok", raw, r[1].detach().numpy().copy())
+
+
+def run_impl(case, animals=None):
+    r = run_impl_raw(case, animals)
+    return r if r[0] == "raise" else ("ok", r[2])
 
 
 # ------------------------------------------------------------------ model side
@@ -260,9 +336,10 @@ def compare(chk, case, out, reply):
         D = np.array([float(unrat(x)) for x in parts[1].split()], dtype=np.float64).reshape(nP, nE)
         if out.shape != D.shape:
             return f"shape impl {out.shape} model {D.shape}"
-        err = np.abs(out - D) / np.maximum(1.0, D)
-        chk.extra["max_rel_diff_dist"] = max(chk.extra.get("max_rel_diff_dist", 0.0), float(err.max()) if err.size else 0.0)
-        if err.size and err.max() > TOL_DIST:
+        M = max([abs(v) for p_ in case["pts"] for v in p_] + [abs(v) for e_ in case["es"] for v in e_])
+        err = np.abs(out - D) / (TOL_DIST * np.maximum(1.0, D) + 8 * EPS32 * M * np.maximum(1.0, np.sqrt(D)))
+        chk.extra["max_dist_diff_over_tol"] = max(chk.extra.get("max_dist_diff_over_tol", 0.0), float(err.max()) if err.size else 0.0)
+        if err.size and err.max() > 1.0:
             i = np.unravel_index(int(np.argmax(err)), err.shape)
             return f"distance_to_edge point {i[0]} edge {i[1]}: impl {out[i]!r} model {D[i]!r}"
         return None
@@ -283,7 +360,8 @@ def compare(chk, case, out, reply):
                 return f"edge block {e}: impl NaN, model defined"
             d = np.abs(o[e] - vals[e])
             chk.extra["max_abs_diff"] = max(chk.extra.get("max_abs_diff", 0.0), float(d.max()) if d.size else 0.0)
-            if d.size and d.max() > TOL:
+            chk.extra["max_diff_over_tol"] = max(chk.extra.get("max_diff_over_tol", 0.0), float(d.max()) / case_tol(case) if d.size else 0.0)
+            if d.size and d.max() > case_tol(case):
                 return f"edge block {e}: impl vs model differ by {d.max()}"
         return None
     C, h, w, rect = [int(x) for x in parts[0].split()]
@@ -295,7 +373,7 @@ def compare(chk, case, out, reply):
         return f"shape impl {tuple(out.shape)} model {(C, h, w)}"
     if not np.isfinite(out).all():
         return "non-finite value in implementation output"
-    tol = TOL * max(1, len(case["animals"]))
+    tol = case_tol(case) * max(1, len(case["animals"]))
     for c in range(C):
         if nz[c] == 0:
             if np.any(out[c] != 0):
@@ -303,6 +381,7 @@ def compare(chk, case, out, reply):
             continue
         d = np.abs(out[c] - vals[c])
         chk.extra["max_abs_diff"] = max(chk.extra.get("max_abs_diff", 0.0), float(d.max()) if d.size else 0.0)
+        chk.extra["max_diff_over_tol"] = max(chk.extra.get("max_diff_over_tol", 0.0), float(d.max()) / tol if d.size else 0.0)
         if d.size and d.max() > tol:
             i, j = np.unravel_index(int(np.argmax(d)), d.shape)
             return f"channel {c} cell (row {i}, col {j}): impl {out[c][i, j]!r} model {vals[c][i, j]!r}"
@@ -314,82 +393,130 @@ def vis(p):
     return p[0] is not None and p[1] is not None
 
 
+def edge_geometry(case, animal):
+    """float64 geometry of every edge of one animal on the stride grid (independent of the model)."""
+    H, W, s = case["H"], case["W"], case["stride"]
+    h, w = math.ceil(H / s), math.ceil(W / s)
+    gy = (np.arange(h) * s).reshape(-1, 1).astype(np.float64) + np.zeros((1, w))
+    gx = (np.arange(w) * s).reshape(1, -1).astype(np.float64) + np.zeros((h, 1))
+    pts = [[f32(p[0]), f32(p[1])] for p in animal]
+    out = []
+    for (u, v) in case["edges"]:
+        src, dst = pts[u], pts[v]
+        valid = vis(src) and vis(dst) and (src[0] != dst[0] or src[1] != dst[1])
+        if not valid:
+            out.append(None)
+            continue
+        dx, dy = dst[0] - src[0], dst[1] - src[1]
+        L = dx * dx + dy * dy
+        rx, ry = gx - src[0], gy - src[1]
+        t = np.clip((rx * dx + ry * dy) / L, 0.0, 1.0)
+        dist2 = (t * dx - rx) ** 2 + (t * dy - ry) ** 2      # true squared point-segment distance
+        out.append({"L": L, "ux": dx / math.sqrt(L), "uy": dy / math.sqrt(L), "dist2": dist2, "gx": gx, "gy": gy})
+    return pts, out
+
+
 def oracle(case, out, singles):
     """C05 on the implementation's outputs.  `singles[a]` = real code run on animal `a` alone.
-    Returns None or (message, [signatures])."""
+    Returns the list of ALL failures as (message, [signatures]).  A signature is attached only to
+    the *effect* a known finding describes:
+      SIG_SHORT — weight-on-the-segment / monotone-in-distance failing on an edge shorter than 1 px;
+      SIG_BOX   — an in-image animal without a node in the open filter box whose single-animal field
+                  is identically zero.
+    Shape, finiteness, additivity, exact zeros, direction, range and the weight law are never signed."""
     H, W, s, sg = case["H"], case["W"], case["stride"], case["sigma"]
     E = len(case["edges"])
     h, w = math.ceil(H / s), math.ceil(W / s)
+    fails = []
     if tuple(out.shape) != (2 * E, h, w):
-        return (f"shape {tuple(out.shape)}, expected {(2 * E, h, w)}", [])
+        return [(f"shape {tuple(out.shape)}, expected {(2 * E, h, w)}", [])]
     if not np.isfinite(out).all():
-        return ("NaN/inf in output", [])
+        return [("NaN/inf in output", [])]
+    tol = case_tol(case)
     tot = np.zeros_like(out, dtype=np.float64)
     for Fa in singles:
         tot += Fa
-    if out.size and np.abs(out - tot).max() > TOL_OR * max(1, len(singles)):
-        return (f"fields of several animals do not add: max |all − Σ singles| = {np.abs(out - tot).max()}", [])
-    gy = (np.arange(h) * s).reshape(-1, 1).astype(np.float64) + np.zeros((1, w))
-    gx = (np.arange(w) * s).reshape(1, -1).astype(np.float64) + np.zeros((h, 1))
+    if out.size and np.abs(out - tot).max() > tol * max(1, len(singles)):
+        fails.append((f"fields of several animals do not add: max |all − Σ singles| = {np.abs(out - tot).max()}", []))
     xl, yl = (w - 1) * s, (h - 1) * s
     for a, (animal, Fa) in enumerate(zip(case["animals"], singles)):
-        pts = [[f32(p[0]), f32(p[1])] for p in animal]
+        pts, geo = edge_geometry(case, animal)
         in_image = any(vis(p) and 0 <= p[0] < W and 0 <= p[1] < H for p in pts)
         in_box = any(vis(p) and 0 < p[0] < xl and 0 < p[1] < yl for p in pts)
+        zero_field = not np.any(Fa != 0)
         for e, (u, v) in enumerate(case["edges"]):
-            Fx, Fy = Fa[2 * e].astype(np.float64), Fa[2 * e + 1].astype(np.float64)
-            src, dst = pts[u], pts[v]
-            valid = vis(src) and vis(dst) and (src[0] != dst[0] or src[1] != dst[1])
+            g = geo[e]
             where = f"animal {a} edge {e} ({u}->{v})"
-            if not valid or not in_image:
-                if np.any(Fx != 0) or np.any(Fy != 0):
-                    return (f"{where}: {'degenerate edge' if not valid else 'animal wholly outside the image'} "
-                            f"but field is not zero (max {max(np.abs(Fx).max(), np.abs(Fy).max())})", [])
+            if g is None or not in_image:
+                if np.any(Fa[2 * e] != 0) or np.any(Fa[2 * e + 1] != 0):
+                    fails.append((f"{where}: {'degenerate edge' if g is None else 'animal wholly outside the image'} "
+                                  f"but field is not zero (max {np.abs(Fa[2 * e:2 * e + 2]).max()})", []))
+        if not in_image:
+            continue
+        if zero_field and not in_box:
+            # the F-C05b effect itself: the whole animal contributes exactly zero.  Reported (signed) only
+            # when a field was due: some non-degenerate edge puts noticeable weight on some grid point.
+            due = [e for e, g in enumerate(geo) if g is not None and g["dist2"].size
+                   and np.exp(-(g["dist2"].min() ** 2) / (2.0 * sg * sg)) > max(TOL_ON, tol)]
+            if due:
+                fails.append((f"animal {a} has a node inside the image but contributes exactly zero "
+                              f"(no node strictly inside (0,{xl})x(0,{yl})); edges {due} were due a field", [SIG_BOX]))
+            continue
+        for e, (u, v) in enumerate(case["edges"]):
+            g = geo[e]
+            if g is None or not g["dist2"].size:
                 continue
-            dx, dy = dst[0] - src[0], dst[1] - src[1]
-            L = dx * dx + dy * dy
-            sigs = ([SIG_SHORT] if L < 1 else []) + ([SIG_BOX] if not in_box else [])
-            ux, uy = dx / math.sqrt(L), dy / math.sqrt(L)
-            rx, ry = gx - src[0], gy - src[1]
-            t = np.clip((rx * dx + ry * dy) / L, 0.0, 1.0)
-            dist2 = (t * dx - rx) ** 2 + (t * dy - ry) ** 2      # true squared point-segment distance
-            mag = Fx * ux + Fy * uy
-            cross = Fx * uy - Fy * ux
-            if np.abs(cross).max() > TOL_OR:
-                return (f"{where}: field not parallel to the edge (|cross| {np.abs(cross).max()})", sigs)
-            if mag.min() < -TOL_OR or mag.max() > 1 + TOL_OR:
-                return (f"{where}: weight outside [0,1]: [{mag.min()}, {mag.max()}] (negative = points dst->src)", sigs)
-            on = dist2 <= 1e-18
-            if on.any() and mag[on].min() < 1 - TOL_ON:
-                i, j = np.argwhere(on & (mag < 1 - TOL_ON))[0]
-                return (f"{where}: grid point (x={gx[i, j]}, y={gy[i, j]}) lies on the segment but weight is {mag[i, j]!r}",
-                        sigs)
-            order = np.argsort(dist2.ravel(), kind="stable")
-            dsorted, msorted = dist2.ravel()[order], mag.ravel()[order]
+            where = f"animal {a} edge {e} ({u}->{v})"
+            Fx, Fy = Fa[2 * e].astype(np.float64), Fa[2 * e + 1].astype(np.float64)
+            short = [SIG_SHORT] if g["L"] < 1 else []
+            mag = Fx * g["ux"] + Fy * g["uy"]
+            cross = Fx * g["uy"] - Fy * g["ux"]
+            if np.abs(cross).max() > tol:
+                fails.append((f"{where}: field not parallel to the edge (|cross| {np.abs(cross).max()})", []))
+            if mag.min() < -tol or mag.max() > 1 + tol:
+                fails.append((f"{where}: weight outside [0,1]: [{mag.min()}, {mag.max()}] (negative = points dst->src)", []))
+            on = g["dist2"] <= 1e-18
+            if on.any() and mag[on].min() < 1 - max(TOL_ON, tol):
+                i, j = np.argwhere(on & (mag < 1 - max(TOL_ON, tol)))[0]
+                fails.append((f"{where}: grid point (x={g['gx'][i, j]}, y={g['gy'][i, j]}) lies on the segment but weight is "
+                              f"{mag[i, j]!r}", short))
+            order = np.argsort(g["dist2"].ravel(), kind="stable")
+            dsorted, msorted = g["dist2"].ravel()[order], mag.ravel()[order]
             runmin = np.minimum.accumulate(msorted)
-            bad = np.nonzero((msorted[1:] > runmin[:-1] + TOL_OR) & (dsorted[1:] > dsorted[:-1] * (1 + 1e-12) + 1e-15))[0]
+            bad = np.nonzero((msorted[1:] > runmin[:-1] + 2 * tol) & (dsorted[1:] > dsorted[:-1] * (1 + 1e-9) + 1e-12))[0]
             if bad.size:
-                return (f"{where}: weight increases with distance from the segment", sigs)
-            if L >= 1 or not in_box:
-                ref = np.exp(-(dist2 ** 2) / (2.0 * sg * sg))
-                if np.abs(mag - ref).max() > TOL_OR:
+                fails.append((f"{where}: weight increases with distance from the segment", short))
+            if g["L"] >= 1:
+                ref = np.exp(-(g["dist2"] ** 2) / (2.0 * sg * sg))
+                if np.abs(mag - ref).max() > tol:
                     i, j = np.unravel_index(int(np.argmax(np.abs(mag - ref))), ref.shape)
-                    return (f"{where}: weight at grid point (x={gx[i, j]}, y={gy[i, j]}) is {mag[i, j]!r}, "
-                            f"the Gaussian of the distance to the segment gives {ref[i, j]!r}", sigs)
-    return None
+                    fails.append((f"{where}: weight at grid point (x={g['gx'][i, j]}, y={g['gy'][i, j]}) is {mag[i, j]!r}, "
+                                  f"the as-coded law exp(-dist^4/2sigma^2) of the true distance gives {ref[i, j]!r}", []))
+    return fails
 
 
 def impl_and_oracle(case):
-    r = run_impl(case)
+    """Joint run, then one run per animal (all through the real code), then the oracle.  The joint
+    result is snapshotted before the later calls and compared afterwards (history check: a result
+    must not be modified by a later call)."""
+    r = run_impl_raw(case)
     if r[0] == "raise":
-        return r, (f"implementation raised {r[1]}: {r[2]}", [])
+        return r, [(f"implementation raised {r[1]}: {r[2]}", [])], []
+    raw, snap = r[1], r[1].clone()
     singles = []
     for a in case["animals"]:
-        ra = run_impl(case | {"extra_sample": None}, animals=[a])
+        ra = run_impl_raw(case | {"extra_sample": None}, animals=[a])
         if ra[0] == "raise":
-            return r, (f"implementation raised on a single animal {ra[1]}: {ra[2]}", [])
-        singles.append(ra[1])
-    return r, oracle(case, r[1], singles)
+            return ("ok", r[2]), [(f"implementation raised on a single animal {ra[1]}: {ra[2]}", [])], []
+        singles.append(ra[2])
+    fails = oracle(case, r[2], singles)
+    if not same(raw, snap):
+        fails.insert(0, ("an earlier result was modified by a later call (returned tensor aliases internal state)", []))
+    return ("ok", r[2]), fails, singles
+
+
+def unsigned(fails):
+    return [f for f in fails if not f[1]]
 
 
 def case_size(case):
@@ -398,11 +525,11 @@ def case_size(case):
             0 if case["sigma"] == 1.0 else 1, sum(1 for p in pts for v in p if v is not None and v != round(v)))
 
 
-def shrink(case, sigs):
-    """Greedy shrink; keeps `oracle fails with the same signature set`; strictly decreasing size."""
+def shrink(case):
+    """Greedy shrink; keeps `the oracle reports an unsigned failure`; strictly decreasing size."""
     def still(c):
-        _, why = impl_and_oracle(c)
-        return why is not None and sorted(why[1]) == sorted(sigs)
+        _, fails, _ = impl_and_oracle(c)
+        return bool(unsigned(fails))
     cur = copy.deepcopy(case)
     cur.pop("extra_sample", None)
     if not still(cur):
@@ -415,9 +542,11 @@ def shrink(case, sigs):
             c = copy.deepcopy(cur); del c["animals"][k]; cands.append(c)
         for k in range(len(cur["edges"])):
             c = copy.deepcopy(cur); del c["edges"][k]; cands.append(c)
-        for key, small in (("H", [8, 16]), ("W", [8, 16]), ("stride", [1, 2]), ("sigma", [1.0])):
-            for val in small:
-                c = copy.deepcopy(cur); c[key] = val; cands.append(c)
+        keys = (("H", [8, 16]), ("W", [8, 16])) + (() if cur.get("defaults") else (("stride", [1, 2]), ("sigma", [1.0])))
+        if not cur.get("large"):
+            for key, small in keys:
+                for val in small:
+                    c = copy.deepcopy(cur); c[key] = val; cands.append(c)
         c = copy.deepcopy(cur)
         c["animals"] = [[[None if v is None else float(round(v)) for v in p] for p in a] for a in c["animals"]]
         cands.append(c)
@@ -438,6 +567,12 @@ def tags_of(case):
     H, W, s = case["H"], case["W"], case["stride"]
     xl, yl = (math.ceil(W / s) - 1) * s, (math.ceil(H / s) - 1) * s
     t = [case["kind"], f"stride{s}", f"edges{min(len(case['edges']), 4)}", f"animals{len(case['animals'])}"]
+    if case.get("large"):
+        t.append("large_frame")
+    if case.get("float_edge_inds"):
+        t.append("float32_edge_inds")
+    if case["sigma"] not in (0.5, 1.0, 1.5, 2.5, 5.0):
+        t.append("continuous_sigma")
     for a in case["animals"]:
         v = [p for p in a if vis(p)]
         if len(v) < len(a):
@@ -459,6 +594,26 @@ def nontrivial(case):
         any(t in ("animal_kept", "animal_in_image_dropped") for t in tags_of(case))
 
 
+def kept_mismatch(case, reply, singles):
+    """The driver's exact kept-animal flags (Rat run of `Pafs.kept`) against the implementation: an
+    animal's single run is non-zero ⇒ kept; kept and some edge ≥ 1 px puts noticeable weight on the
+    grid ⇒ single run non-zero."""
+    parts = [p.strip() for p in (reply + " ").split("|")]
+    flags = [int(x) for x in parts[1].split()]
+    if len(flags) != len(case["animals"]):
+        return f"kept flags: {len(flags)} for {len(case['animals'])} animals"
+    for a, (animal, Fa) in enumerate(zip(case["animals"], singles)):
+        nz = bool(np.any(Fa != 0))
+        if nz and not flags[a]:
+            return f"animal {a}: model says dropped by the in-image filter, implementation field is not zero"
+        if flags[a] and not nz:
+            _, geo = edge_geometry(case, animal)
+            if any(g is not None and g["L"] >= 1 and g["dist2"].size
+                   and np.exp(-(g["dist2"].min() ** 2) / (2.0 * case["sigma"] ** 2)) > 1e-3 for g in geo):
+                return f"animal {a}: model says kept, implementation field is identically zero"
+    return None
+
+
 def check_case(chk, case, reply):
     kind = case["kind"]
     if kind in ("dist", "mkpafs", "mpafs"):
@@ -472,28 +627,49 @@ def check_case(chk, case, reply):
                           "mpafs": "make_multi_pafs == Pafs.makeMultiPafs"}[kind], case, why, "see case")
             return True
         return False
-    r, why = impl_and_oracle(case)
+    r, fails, singles = impl_and_oracle(case)
     reported = False
     if r[0] == "raise":
         chk.disagree("generate_pafs: implementation raised where the model does not", case, list(r), "ok")
         reported = True
-    else:
-        cmp_ = compare(chk, case, r[1], reply) if reply is not None else None
+    elif reply is not None:
+        cmp_ = compare(chk, case, r[1], reply)
+        if not cmp_ and len(singles) == len(case["animals"]):
+            cmp_ = kept_mismatch(case, reply, singles)
         if cmp_:
             chk.disagree("generate_pafs == Pafs.pafs", case, cmp_, "see case")
             reported = True
-    if why:
-        msg, sigs = why
-        if sigs:
+    seen = set()
+    for msg, sigs in fails:
+        if sigs and tuple(sigs) not in seen:       # the effect a known finding describes: routed through its signature
+            seen.add(tuple(sigs))
             chk.extra["excluded_region_failures"] = chk.extra.get("excluded_region_failures", 0) + 1
-            chk.fail("C05 (excluded region): " + msg, case, None, sigs)   # routed through the signatures
-        else:
-            small = shrink(case, sigs)
-            _, why2 = impl_and_oracle(small)
-            chk.fail("C05 fails on the implementation: " + (why2[0] if why2 else msg), small,
-                     {"original_case": case, "why_original": msg}, (why2[1] if why2 else sigs))
-            reported = True
+            chk.fail("C05 (known effect): " + msg, case, None, sigs)
+    if unsigned(fails):
+        small = shrink(case)
+        _, fails2, _ = impl_and_oracle(small)
+        u = unsigned(fails2) or unsigned(fails)
+        chk.fail("C05 fails on the implementation: " + u[0][0], small,
+                 {"original_case": case, "all_failures": [m for m, _ in fails][:8]}, ())
+        reported = True
     return reported
+
+
+def defaults_probe(chk):
+    """Assumption check, recorded not judged: sigma / output_stride / edge_inds are `attrs.field(...)`
+    defaults in plain (non-attrs) signatures, so calls relying on them cannot work today.  If that is
+    ever repaired the DataPipe defaults (sigma 1.0, stride 1) are compared like any other case."""
+    import torch
+    from sleap_nn.data import edge_maps as em
+    inst = torch.tensor([[[[2.0, 2.0], [5.0, 5.0]]]])
+    r1 = call(em.generate_pafs, inst, (8, 8))
+    ex = {"image": torch.zeros((1, 1, 8, 8)), "instances": inst}
+    r2 = call(lambda: list(em.PartAffinityFieldsGenerator([ex], edge_inds=torch.Tensor([[0, 1]])))[0]["part_affinity_fields"])
+    chk.extra["default_arguments"] = {
+        "generate_pafs(instances, img_hw)": "ok" if r1[0] == "ok" else f"raise:{r1[1]}",
+        "PartAffinityFieldsGenerator(dp, edge_inds=...)": "ok" if r2[0] == "ok" else f"raise:{r2[1]}"}
+    chk.tag("defaults_" + ("work" if r2[0] == "ok" else "raise_" + str(r2[1])))
+    return r2[0] == "ok"
 
 
 def main(chk: Check):
@@ -505,9 +681,9 @@ def main(chk: Check):
     # ---- known findings: replay the recorded witnesses on the real code
     for ent in chk.known:
         if ent["status"] in ("known", "fixed") and ent.get("witness"):
-            _, why = impl_and_oracle(ent["witness"])
-            fails = why is not None and (ent["signature"] in why[1] or ent["status"] == "fixed")
-            chk.known_replay(ent["id"], still_fails=fails, detail=str(why))
+            _, fails, _ = impl_and_oracle(ent["witness"])
+            hit = any(ent["signature"] in sg for _, sg in fails) or (ent["status"] == "fixed" and bool(fails))
+            chk.known_replay(ent["id"], still_fails=hit, detail=str(fails[:2]))
 
     cases = [
         # the suite's literal example shapes + the proof's case splits
@@ -519,12 +695,21 @@ def main(chk: Check):
          "animals": [[[3.0, 3.0], [3.0, 3.0]], [[1.0, 1.0], [4.0, 5.0]]]},
         {"kind": "dp", "H": 8, "W": 8, "stride": 2, "sigma": 1.0, "n_nodes": 2, "edges": [[0, 1]],
          "animals": [[[1.0, 1.0], [5.0, 1.0]], [[5.0, 5.0], [1.0, 5.0]]]},
+        {"kind": "dp_noflat", "H": 8, "W": 8, "stride": 2, "sigma": 1.0, "n_nodes": 2, "edges": [[0, 1]],
+         "float_edge_inds": True, "animals": [[[1.0, 1.0], [5.0, 1.0]], [[5.0, 5.0], [1.0, 5.0]]]},
         {"kind": "pafs", "H": 8, "W": 8, "stride": 2, "sigma": 1.0, "n_nodes": 2, "edges": [], "animals": [[[1.0, 1.0], [5.0, 1.0]]]},
         {"kind": "pafs", "H": 8, "W": 8, "stride": 2, "sigma": 1.0, "n_nodes": 2, "edges": [[0, 1]], "animals": []},
+        # real-data regime: 2048 px frame, long edge in the far corner, grid point on the segment
+        {"kind": "pafs", "H": 2048, "W": 2048, "stride": 64, "sigma": 15.0, "n_nodes": 2, "edges": [[0, 1]], "large": True,
+         "float_edge_inds": True, "animals": [[[1920.0, 1856.0], [1400.5, 1310.25]], [[64.0, 64.0], [640.0, 64.0]]]},
     ]
-    kinds = ["pafs", "pafs", "pafs_noflat", "dp", "mpafs", "mkpafs"]
+    if defaults_probe(chk):
+        cases.append({"kind": "dp", "H": 8, "W": 8, "stride": 1, "sigma": 1.0, "n_nodes": 2, "edges": [[0, 1]],
+                      "float_edge_inds": True, "defaults": True, "animals": [[[2.0, 2.0], [5.0, 5.0]]]})
     for k in range(chk.n(330, 4000)):
-        cases.append(gen_case(rng, kinds[k % len(kinds)]))
+        cases.append(gen_case(rng, KINDS[k % len(KINDS)]))
+    for k in range(chk.n(40, 400)):
+        cases.append(gen_large_case(rng, ["pafs", "dp", "pafs_noflat", "mpafs"][k % 4]))
     # ---- the regions the _partial theorems exclude: sampled on purpose (search, not proof coverage)
     n_ex = chk.n(60, 600)
     for k in range(n_ex):
@@ -545,11 +730,14 @@ def main(chk: Check):
         for bc in [c for c in bad if c["kind"] != "dist"][:3]:
             found = False
             for _ in range(20):
-                c = gen_case(rng, "pafs", pin={k: bc[k] for k in ("H", "W", "stride", "sigma")},
-                             modes=["inside", "integer", "partly"])
+                if bc.get("large"):
+                    c = gen_large_case(rng, "pafs")
+                else:
+                    c = gen_case(rng, "pafs", pin={k: bc[k] for k in ("H", "W", "stride", "sigma")},
+                                 modes=["inside", "integer", "partly"])
                 chk.evaluations += 1
-                _, why = impl_and_oracle(c)
-                if why and not why[1]:
+                _, fails, _ = impl_and_oracle(c)
+                if unsigned(fails):
                     check_case(chk, c, None)
                     found = True
                     break
@@ -563,8 +751,8 @@ def replay(chk: Check, payload):
     rep = run_driver("C05.lean", [" ".join(model_line(case).split())])[0]
     chk.case(repr(case))
     if case["kind"] not in ("dist", "mkpafs", "mpafs"):
-        r, why = impl_and_oracle(case)
-        print(f"replay case={case}\n impl={'raise ' + str(r[1:]) if r[0] == 'raise' else 'shape ' + str(r[1].shape)}\n oracle={why}")
+        r, fails, _ = impl_and_oracle(case)
+        print(f"replay case={case}\n impl={'raise ' + str(r[1:]) if r[0] == 'raise' else 'shape ' + str(r[1].shape)}\n oracle={fails}")
     check_case(chk, case, rep)
 
 
@@ -573,28 +761,42 @@ if __name__ == "__main__":
         "C05", module="SleapVerif.Props.C05", theorems=THEOREMS,
         build_targets=["SleapVerif.Model.Proto", "SleapVerif.Model.Scalar", "SleapVerif.Model.Grid",
                        "SleapVerif.Model.Confmaps", "SleapVerif.Model.Pafs", "SleapVerif.Lemmas.Transc",
-                       "SleapVerif.Props.C01"],
+                       "SleapVerif.Lemmas.GridTab"],
         trusted=[
             "Lean 4.33 kernel + Mathlib; axioms ⊆ {propext, Classical.choice, Quot.sound} (audited per run)",
             "hand-written model Pafs.lean of edge_maps.py; tied to /repo by the correspondence on the explored inputs only",
             "exp/sqrt enter as parameters with the laws of Lemmas/Transc.lean (instantiated at ℝ by realTransc)",
-            f"float32 evaluation in torch within {TOL}·(#animals) of the float64 evaluation of the same expressions "
-            "(measured: evidence max_abs_diff); NaN plumbing (0/0, isnan → 0) amounts to none ↦ 0 (checked exactly); "
-            "float32 underflow of |d|² for |d| < 1e-19 (gives inf) is outside the lattice inputs and not modelled",
+            "float32 evaluation in torch within max(2e-5, 2.5·eps32·M/sqrt(sigma))·(#animals) of the float64 evaluation of the "
+            "same expressions, M = largest coordinate / image side (measured up to 4096 px: evidence max_diff_over_tol); NaN "
+            "plumbing (0/0, isnan → 0) amounts to none ↦ 0 (checked exactly); float32 underflow of |d|² for |d| < 1e-19 (gives "
+            "inf) is outside the lattice inputs and not modelled",
             "torch indexing/broadcast/meshgrid/permute semantics (validated by the correspondence)",
         ],
         rule="entry points distance_to_edge, make_pafs, make_multi_pafs, generate_pafs (flattened / not), "
-             "PartAffinityFieldsGenerator; 0-4 animals x 1-5 nodes on the k/16 lattice in modes inside / integer / wholly "
-             "outside / partly outside / last-stride strip and x=0,y=0 lines / sub-pixel edges / coincident nodes, NaN "
-             "patterns (node, one coordinate, whole animal); edge lists chain / random / repeated+reversed / self-edge / "
-             "empty; H,W in 1..36 (50% stride multiples), stride {1,2,4,8}, sigma {.5,1,1.5,2.5,5}; distinct = distinct "
-             "case; trivial = no animal in the image with a non-degenerate edge",
+             "PartAffinityFieldsGenerator (flattened / not); edge_inds as int64 tensor or, as production does, torch.Tensor(list) "
+             "(float32); 0-4 animals x 1-5 nodes on the k/16 lattice in modes inside / integer / wholly outside / partly outside / "
+             "last-stride strip and x=0,y=0 lines / sub-pixel edges / coincident nodes, NaN patterns (node, one coordinate, whole "
+             "animal); edge lists chain / random / repeated+reversed / self-edge / empty; H,W in 1..36 (50% stride multiples), "
+             "stride {1,2,4,8}; a large-frame family H,W in 512..4096 with stride 16..64 (grid <= 64 cells a side), long edges, "
+             "far-corner animals; sigma {.5,1,1.5,2.5,5} (65%) or log-uniform in [0.3,20] ([0.5,40] on large frames); "
+             "distance_to_edge also with coordinates up to 4096; distinct = distinct case; trivial = no animal in the image with "
+             "a non-degenerate edge",
         assumptions=[
-            "sigma > 0, stride >= 1, H,W >= 1, finite coordinates, edge indices in range, n_samples = 1 (the code reads instances[0])",
+            "sigma > 0, stride >= 1, H,W >= 1 (H or W = 0: torch raises IndexError on xv[-1], the model totalises gridLast to 0), finite "
+            "coordinates, edge indices in range and non-negative (torch raises / wraps, the model's nodeOf gives a missing node), "
+            "n_samples = 1 (the code reads instances[0])",
+            "sigma, output_stride and edge_inds are passed explicitly: their declared defaults are attrs.field(...) objects in "
+            "non-attrs signatures, so generate_pafs(instances, img_hw) and PartAffinityFieldsGenerator(dp, edge_inds=...) raise "
+            "TypeError today (every call site in sleap_nn passes all three); probed each run and recorded in the evidence "
+            "(default_arguments), compared like any other case should they ever work",
+            "an empty edge list is passed as an (0,2) tensor; the production idiom torch.Tensor([]) is 1-D and raises IndexError "
+            "(a bottom-up skeleton without edges is not a supported configuration)",
+            "distance_to_edge is called with rank-3 points (h, w, 2) as make_edge_maps does (the hard-coded dim=3 makes other ranks raise "
+            "or mis-shape; outside the property)",
             "weight-1-on-segment / monotone-in-distance are theorems only for edges of length >= 1 px (F-C05a)",
             "an animal contributes only if a node lies strictly inside (0,xv[-1]) x (0,yv[-1]) (F-C05b)",
             "the weight is exp(-(dist^2)^2 / (2 sigma^2)) with sigma NOT multiplied by the stride (as coded; the property only "
-            "asks for a weight in [0,1], 1 on the segment, non-increasing)",
+            "asks for a weight in [0,1], 1 on the segment, non-increasing): the oracle pins this law for edges >= 1 px",
         ],
     )
     run_check(chk, main, replay)
